@@ -343,7 +343,9 @@ def write_replay(prop, rec):
 
 
 def write_evidence(prop, tier, coverage, assumptions, wall, violations, level="model_checking"):
-    os.makedirs(os.path.join(ROOT, "evidence"), exist_ok=True)
+    # (development only: runs against a scratch worktree - VERIF_HARNESS set - leave /verif/evidence alone)
+    evdir = os.path.join(WORK, "evidence-scratch") if "VERIF_HARNESS" in os.environ else os.path.join(ROOT, "evidence")
+    os.makedirs(evdir, exist_ok=True)
     ev = {
         "property_id": prop,
         "tier": tier,
@@ -354,7 +356,7 @@ def write_evidence(prop, tier, coverage, assumptions, wall, violations, level="m
         "wall_s": round(wall, 2),
         "violations": violations,
     }
-    p = os.path.join(ROOT, "evidence", prop + ".json")
+    p = os.path.join(evdir, prop + ".json")
     tmp = p + ".tmp"
     with open(tmp, "w") as f:
         json.dump(ev, f, indent=1)
